@@ -181,6 +181,7 @@ LIB = [
     ('L-shape', P([[0, 0], [8, 0], [8, 3], [3, 3], [3, 8], [0, 8]])),
     ('U-shape', P([[0, 0], [8, 0], [8, 8], [6, 8], [6, 2], [2, 2], [2, 8], [0, 8]])),
     ('in-U-notch', P(sq(3, 4, 5, 7))),
+    ('poly-hole-to-body', P([[4, 4], [7, 4], [7, 5], [4, 5]])),
     ('triangle', P([[1, 1], [7, 2], [3, 7]])),
     ('collinear-vertices', P([[0, 0], [4, 0], [8, 0], [8, 8], [4, 8], [0, 8], [0, 4]])),
     ('big', P(sq(-4, -4, 30, 30))),
@@ -216,6 +217,8 @@ LIB = [
     ('ln-long-diag', L([1, 1], [5, 3])),
     ('ln-through-hole', L([1, 4], [7, 4])),
     ('ln-collinear-extension', L([1, 1], [-1, 0], [-3, -1])),
+    ('ln-hole-to-body', L([4, 4], [7, 4])),
+    ('ln-retrace-tail', L([3, 3], [1, 1], [3, 3])),
     ('ln-zigzag-vertices-on-sq', L([0, 0], [4, 8], [8, 0])),
     # --- points
     ('pt-interior', PT(4, 4)),
@@ -785,8 +788,28 @@ def main():
     for i, m in enumerate(meta):
         if 'property_clauses_violated' in m and i not in bad:
             bad.append(i)
-    for i in sorted(set(bad))[:5]:
+    # report first the inputs on which the property itself fails on the implementation,
+    # one per (stream, clause) where possible, then plain model/implementation differences
+    def rank(i):
         m = meta[i]
+        return (0 if 'property_clauses_violated' in m else 1, i)
+    ordered, seen_kinds = [], set()
+    for i in sorted(set(bad), key=rank):
+        m = meta[i]
+        kind = (m['k'], tuple(c[0] for c in m.get('property_clauses_violated', [])))
+        if kind in seen_kinds:
+            continue
+        seen_kinds.add(kind)
+        ordered.append(i)
+    ordered += [i for i in sorted(set(bad), key=rank) if i not in ordered]
+    ck.cov['disagreeing_cases'] = len(set(bad))
+    for i in ordered[:6]:
+        m = meta[i]
+        if m['k'] == 'sweep' and m.get('property_clauses_violated'):
+            cl = m['property_clauses_violated'][0][0]
+            sa, sb = shrink_sweep(m['ea'], m['eb'], cl)
+            if (len(sa), len(sb)) != (len(m['ea']), len(m['eb'])):
+                m = dict(m, shrunk_from={'ea': m['ea'], 'eb': m['eb']}, ea=sa, eb=sb, out=impl_sweep(sa, sb))
         ck.violation({'kind': 'property-fails-on-implementation' if 'property_clauses_violated' in m
                       else 'model-vs-implementation',
                       'case': m, 'gallina_case': cases[i],
@@ -862,7 +885,7 @@ def main():
 
     ck.finish(level='proof',
               rule='sweep: seeded random edge lists on grids 2..9 with forced duplicates/retraced/horizontal/vertical/'
-                   'chained edges + D2/D3 regression corpus; pair: all ordered pairs of the fixed 67-shape library '
+                   'chained edges + D2/D3 regression corpus; pair: all ordered pairs of the fixed 70-shape library '
                    '(dt combination cycled over the nine), rotations/reversals of the first ring in both argument '
                    'orders (sampled in quick, all in thorough); seeded random pairs of arbitrary valid shapes on grids 3..8 '
                    '(points, paths with retracing/closing, boxes, polygons from arbitrary vertex lists, 0-2 holes; 35% of the '
@@ -875,6 +898,52 @@ def main():
                            'reference on the fixed library only'])
 
 
+def model_eval(term):
+    """value of a Gallina term under the model, by coqc (vm_compute)"""
+    import subprocess
+    import tempfile
+    from lib import COQ
+    with tempfile.TemporaryDirectory() as d:
+        f = os.path.join(d, 'ReplayC02.v')
+        open(f, 'w').write(IMPORTS + f'\nEval vm_compute in ({term}).\n')
+        r = subprocess.run(['coqc', '-Q', os.path.join(COQ, 'theories'), 'GV', f], stdout=subprocess.PIPE,
+                           stderr=subprocess.STDOUT, text=True, timeout=300)
+        return ' '.join(r.stdout.split())
+
+
+def sweep_clauses(ea, eb):
+    """clauses of the property that do_edges_intersect violates on (ea, eb)"""
+    out = impl_sweep(ea, eb)
+    if out[0] != 'Ok':
+        return ['no-exception']
+    bad = []
+    if out[1] != any(impl_hit(a, b) for a in ea for b in eb):
+        bad.append('sweep=brute')
+    if impl_sweep(eb, ea) != out:
+        bad.append('symmetry')
+    return bad
+
+
+def shrink_sweep(ea, eb, clause):
+    """greedy: drop edges while the same clause stays violated"""
+    ea, eb = list(ea), list(eb)
+    changed = True
+    while changed:
+        changed = False
+        for which in (0, 1):
+            lst = (ea, eb)[which]
+            for i in range(len(lst)):
+                cand = lst[:i] + lst[i + 1:]
+                pair = (cand, eb) if which == 0 else (ea, cand)
+                if clause in sweep_clauses(*pair):
+                    ea, eb = pair
+                    changed = True
+                    break
+            if changed:
+                break
+    return ea, eb
+
+
 def replay(path):
     r = json.load(open(path))
     m = r.get('case') or {}
@@ -883,6 +952,9 @@ def replay(path):
         eb = [tuple(map(tuple, e)) for e in m['eb']]
         print('do_edges_intersect now:', impl_sweep(ea, eb), ' mirrored:', impl_sweep(eb, ea),
               ' brute force:', any(impl_hit(a, b) for a in ea for b in eb))
+        print('model (sweep, brute):', model_eval(
+            f'sweep hit {listlit([seglit(e) for e in ea])} {listlit([seglit(e) for e in eb])}, '
+            f'brute hit {listlit([seglit(e) for e in ea])} {listlit([seglit(e) for e in eb])}'))
     elif m.get('k') == 'pair':
         da = tuple(m['da']) if m.get('da') else None
         db = tuple(m['db']) if m.get('db') else None
@@ -890,6 +962,9 @@ def replay(path):
         print('implementation now: intersects_shape', oi, 'contains_shape', oc)
         print('mirrored intersects_shape:', observe(m['b'], m['a'], db, da)[0])
         print('without dt:', observe(m['a'], m['b']))
+        print('model (intersects_shape, contains_shape):', model_eval(
+            f'intersects_shape {zlit(W)} {shapelit(m["a"], da)} {shapelit(m["b"], db)}, '
+            f'contains_shape {zlit(W)} {shapelit(m["a"], da)} {shapelit(m["b"], db)}'))
         print('gallina case:', lit)
     elif 'a' in m and 'b' in m and isinstance(m['a'], dict):
         print('implementation now:', observe(m['a'], m['b']), ' closed-set reference:',
